@@ -1,9 +1,10 @@
 CONSTANTS p = 5
  usq = 2
- ASet = "all"
+ ASet = "some"
+ BSet = "all"
  AssocAll = FALSE
- AssocStep = 4
- MaxK = 24
+ AssocStep = 6
+ MaxK = 12
 SPECIFICATION Spec
 INVARIANT Check
 CHECK_DEADLOCK FALSE
